@@ -478,10 +478,17 @@ type Contract struct {
 	Trusted  bool // contract is assumed; body not verified (listed in evidence)
 	Extern   bool
 	Callback bool
-	Params   []string // for extern/callback: parameter names
+	Params   []string // for extern/callback: parameter names; for func: positional names (receiver first)
+	Locals   []LocalDecl
 	NoInline bool
 	File     string
 	Line     int
+}
+
+// LocalDecl: `local NAME TYPE` — a local or captured variable the contract mentions.
+type LocalDecl struct {
+	Name, Type string
+	Ord        int // position among the function's variables of that type (-1 unknown)
 }
 
 type PureFn struct {
@@ -573,7 +580,7 @@ func loadSpecLines(path string) ([]specLine, error) {
 var clauseKeywords = map[string]bool{
 	"func": true, "extern": true, "callback": true, "pure": true, "ghostfield": true, "chaninv": true, "axiom": true, "uf": true, "ghostvar": true, "guardedby": true, "joins": true, "delivers": true, "thread": true, "owner": true, "owned": true,
 	"requires": true, "ensures": true, "modifies": true, "let": true, "ghost": true, "returns": true,
-	"at": true, "trusted": true, "noinline": true, "params": true,
+	"at": true, "trusted": true, "noinline": true, "params": true, "local": true,
 }
 
 func isClauseStart(t string) bool {
@@ -858,6 +865,20 @@ func (ss *SpecSet) parseLine(l specLine, cur **Contract) error {
 	switch {
 	case kw == "returns":
 		c.Results = parseNameList(rest)
+	case kw == "local":
+		// local NAME [#k] TYPE
+		n, t := splitWord(rest)
+		ld := LocalDecl{Name: n, Ord: -1}
+		t = strings.TrimSpace(t)
+		if strings.HasPrefix(t, "#") {
+			var o string
+			o, t = splitWord(t)
+			if k, err := strconv.Atoi(o[1:]); err == nil {
+				ld.Ord = k
+			}
+		}
+		ld.Type = strings.TrimSpace(t)
+		c.Locals = append(c.Locals, ld)
 	case kw == "params":
 		c.Params = parseNameList(rest)
 	case kw == "requires":
